@@ -5,6 +5,11 @@
 //
 //	C09 h cap=<c> max=<a> orc=<T|F|R> ps=<peerset> <op>... => <obs>...
 //	C09 cad <inf|ping> <ttl ms> <error pattern> => pubs=<n> late=<l>
+//
+// Suites "timed" (timed.go: metrics expiring on the real clock), "watch"
+// (watch.go: the real Checker.Watch loop, lines `C09 w ... iv=<ms> ...`) and
+// "recv" (recv.go: metrics received through real pubsub) add the tokens
+// a<n>.<p>.<v>@<E>, +<d> and w<variant>.<n>.<p>.<v><k|@E>.
 package main
 
 import (
@@ -35,6 +40,10 @@ import (
 const maxPeerIdx = 12
 const maxNameIdx = 6
 
+// In the recv suite the zero metric (Name "", Peer "") is reported under these indices.
+const zeroNameIdx = 7
+const zeroPeerIdx = 13
+
 var peerIdx = map[peer.ID]int{}
 
 func init() {
@@ -56,22 +65,36 @@ func (p peerset) String() string {
 }
 
 type op struct {
-	kind  byte // a r x s q t k
+	kind  byte // a r x s q t k, + (the nominal clock advances), w (arrival through pubsub, suite recv)
 	n, p  int
 	valid bool
-	ek    byte // f fresh (+3h), m fresh (max int64), e expired (-3h), z expired (Expire = 0)
+	ek    byte   // f fresh (+3h), m fresh (max int64), e expired (-3h), z expired (Expire = 0), @ expires at model time exp
+	exp   int    // ek == '@': absolute expiry, model milliseconds (a case starts at 1000)
+	d     int    // kind '+': milliseconds
+	vr    string // kind 'w': payload variant
 	ps    peerset
 	list  []int
+}
+
+func (o op) vk() string {
+	v := 0
+	if o.valid {
+		v = 1
+	}
+	if o.ek == '@' {
+		return fmt.Sprintf("%d@%d", v, o.exp)
+	}
+	return fmt.Sprintf("%d%c", v, o.ek)
 }
 
 func (o op) String() string {
 	switch o.kind {
 	case 'a':
-		v := 0
-		if o.valid {
-			v = 1
-		}
-		return fmt.Sprintf("a%d.%d.%d%c", o.n, o.p, v, o.ek)
+		return fmt.Sprintf("a%d.%d.%s", o.n, o.p, o.vk())
+	case 'w':
+		return fmt.Sprintf("w%s.%d.%d.%s", o.vr, o.n, o.p, o.vk())
+	case '+':
+		return fmt.Sprintf("+%d", o.d)
 	case 'r':
 		return fmt.Sprintf("r%d", o.p)
 	case 'x':
@@ -92,17 +115,32 @@ type tcase struct {
 	cap int
 	orc byte // T F R
 	ps0 peerset
+	iv  int // > 0: a line of kind w (suite watch), the check interval in milliseconds
 	ops []op
 }
 
 func (c tcase) input() string {
 	var b strings.Builder
-	fmt.Fprintf(&b, "C09 h cap=%d max=%d orc=%c ps=%s", c.cap, metrics.MaxAlertThreshold, c.orc, c.ps0)
+	if c.iv > 0 {
+		fmt.Fprintf(&b, "C09 w cap=%d max=%d orc=%c ps=%s iv=%d", c.cap, metrics.MaxAlertThreshold, c.orc, c.ps0, c.iv)
+	} else {
+		fmt.Fprintf(&b, "C09 h cap=%d max=%d orc=%c ps=%s", c.cap, metrics.MaxAlertThreshold, c.orc, c.ps0)
+	}
 	for _, o := range c.ops {
 		b.WriteByte(' ')
 		b.WriteString(o.String())
 	}
 	return b.String()
+}
+
+// plain: a history without clock or pubsub tokens (what the history and monitor suites run).
+func (c tcase) plain() bool {
+	for _, o := range c.ops {
+		if o.kind == '+' || o.kind == 'w' || o.ek == '@' {
+			return false
+		}
+	}
+	return c.iv == 0
 }
 
 // ---------------------------------------------------------------- generation
@@ -259,17 +297,45 @@ func parseOp(s string) (op, bool) {
 		v, err := strconv.Atoi(x)
 		return v, err == nil && v >= 0 && v < lim
 	}
+	// <v><f|m|e|z> or <v>@<E>
+	vk := func(x string) bool {
+		if len(x) < 2 || !strings.ContainsRune("01", rune(x[0])) {
+			return false
+		}
+		o.valid, o.ek = x[0] == '1', x[1]
+		if o.ek == '@' {
+			var ok bool
+			o.exp, ok = num(x[2:], 10000000)
+			return ok
+		}
+		return len(x) == 2 && strings.ContainsRune("fmez", rune(o.ek))
+	}
 	var ok, ok2 bool
 	switch o.kind {
 	case 'a':
 		f := strings.Split(body, ".")
-		if len(f) != 3 || len(f[2]) != 2 || !strings.ContainsRune("01", rune(f[2][0])) || !strings.ContainsRune("fmez", rune(f[2][1])) {
+		if len(f) != 3 || !vk(f[2]) {
 			return o, false
 		}
 		o.n, ok = num(f[0], maxNameIdx)
 		o.p, ok2 = num(f[1], maxPeerIdx)
-		o.valid, o.ek = f[2][0] == '1', f[2][1]
 		return o, ok && ok2
+	case 'w':
+		f := strings.Split(body, ".")
+		if len(f) != 4 || !vk(f[3]) || !knownVariant(f[0]) {
+			return o, false
+		}
+		o.vr = f[0]
+		if zeroVariant(o.vr) {
+			o.n, o.p = zeroNameIdx, zeroPeerIdx
+			return o, f[1] == strconv.Itoa(zeroNameIdx) && f[2] == strconv.Itoa(zeroPeerIdx) && f[3] == "0z"
+		}
+		o.n, ok = num(f[1], maxNameIdx)
+		o.p, ok2 = num(f[2], maxPeerIdx)
+		return o, ok && ok2
+	case '+':
+		o.d, ok = num(body, 1000000)
+		return o, ok
 	case 'r':
 		o.p, ok = num(body, maxPeerIdx)
 		return o, ok
@@ -305,7 +371,7 @@ func kv(key, s string) (string, bool) {
 
 func parseCase(line string) (tcase, bool) {
 	f := strings.Fields(line)
-	if len(f) < 6 || f[0] != "C09" || f[1] != "h" {
+	if len(f) < 6 || f[0] != "C09" || (f[1] != "h" && f[1] != "w") {
 		return tcase{}, false
 	}
 	var c tcase
@@ -325,7 +391,19 @@ func parseCase(line string) (tcase, bool) {
 	if c.ps0, ok = parsePeerset(psS); !ok {
 		return c, false
 	}
-	for _, w := range f[6:] {
+	rest := f[6:]
+	if f[1] == "w" { // kind w carries the check interval after ps=
+		if len(rest) == 0 {
+			return c, false
+		}
+		ivS, ok5 := kv("iv", rest[0])
+		iv, err := strconv.Atoi(ivS)
+		if !ok5 || err != nil || iv < 10 || iv > 10000 || iv%2 != 0 {
+			return c, false
+		}
+		c.iv, rest = iv, rest[1:]
+	}
+	for _, w := range rest {
 		if w == "=>" {
 			break
 		}
@@ -350,9 +428,12 @@ func pids(l []int) []peer.ID {
 
 var t0 = time.Now()
 
-func mkMetric(name string, o op, idx int) *api.Metric {
+// mkMetric: base is the real instant of model time 1000 (only '@' expiries use it).
+func mkMetric(name string, o op, idx int, base time.Time) *api.Metric {
 	m := &api.Metric{Name: name, Peer: common.PeerN(o.p), Value: strconv.Itoa(idx), Valid: o.valid}
 	switch o.ek {
+	case '@':
+		m.Expire = base.Add(time.Duration(o.exp-1000) * time.Millisecond).UnixNano()
 	case 'f':
 		m.Expire = t0.Add(3 * time.Hour).UnixNano()
 	case 'm':
@@ -501,7 +582,7 @@ func runHistory(c tcase) (res string) {
 	for idx, o := range c.ops {
 		switch o.kind {
 		case 'a':
-			store.Add(mkMetric(mname(o.n), o, idx))
+			store.Add(mkMetric(mname(o.n), o, idx, t0))
 		case 'r':
 			store.RemovePeer(common.PeerN(o.p))
 		case 'x':
@@ -595,10 +676,10 @@ func (ms *monitors) run(c tcase) (res string, ok bool) {
 	for idx, o := range c.ops {
 		switch o.kind {
 		case 'a':
-			if err := ms.noPeers.LogMetric(ctx, mkMetric(name(o.n), o, idx)); err != nil {
+			if err := ms.noPeers.LogMetric(ctx, mkMetric(name(o.n), o, idx, t0)); err != nil {
 				return "", false
 			}
-			if err := ms.withPeers.LogMetric(ctx, mkMetric(name(o.n), o, idx)); err != nil {
+			if err := ms.withPeers.LogMetric(ctx, mkMetric(name(o.n), o, idx, t0)); err != nil {
 				return "", false
 			}
 		case 's':
@@ -782,6 +863,18 @@ func main() {
 	out := common.NewOut()
 	defer out.Flush()
 
+	switch suite {
+	case "timed":
+		runTimedSuite(a, out)
+		return
+	case "watch":
+		runWatchSuite(a, out)
+		return
+	case "recv":
+		runRecvSuite(a, out)
+		return
+	}
+
 	var ms *monitors
 	if suite == "monitor" {
 		var err error
@@ -792,6 +885,9 @@ func main() {
 		}
 	}
 	runCase := func(c tcase) {
+		if !c.plain() {
+			return // lines of the timed / watch / recv suites
+		}
 		if suite == "monitor" {
 			if res, ok := ms.run(c); ok {
 				out.Line("%s => %s", c.input(), res)
